@@ -2,6 +2,7 @@
 package c03
 
 import (
+	"fmt"
 	"math"
 	"math/big"
 	"sort"
@@ -34,6 +35,14 @@ type Case struct {
 	// line: the lines and the query point are handed to geom multiplied exactly by 2^LineScaleExp; the expected length
 	// and distance are those of the unscaled case times 2^LineScaleExp (exact)
 	LineScaleExp int `json:"line_scale_exp,omitempty"`
+	// axis (kind "axis"): every vertex of Lines and (unless AxisOff != 0) the query point share ONE coordinate value
+	// AxisShared exactly - on the x axis if AxisVertical, else on the y axis -, the other coordinate being the small
+	// integer stored in Lines / Pt times 2^AxisUnitExp; the query point is AxisOff units of 2^AxisUnitExp away from the
+	// line's axis. Lengths and distances are those of a one-dimensional problem and exact.
+	AxisShared   vkit.F `json:"axis_shared,omitempty"`
+	AxisUnitExp  int    `json:"axis_unit_exp,omitempty"`
+	AxisVertical bool   `json:"axis_vertical,omitempty"`
+	AxisOff      int    `json:"axis_off,omitempty"`
 }
 
 func ip(x, y int) vkit.P2 { return vkit.MkP(float64(x), float64(y)) }
@@ -186,8 +195,28 @@ func latticePolygon(t *rapid.T, ox int) [][]vkit.P2 {
 
 func gen(t *rapid.T) Case {
 	var c Case
-	c.Kind = rapid.SampledFrom([]string{"poly", "poly", "poly", "line", "buffer", "box"}).Draw(t, "kind")
+	c.Kind = rapid.SampledFrom([]string{"poly", "poly", "poly", "line", "buffer", "box", "axis"}).Draw(t, "kind")
 	switch c.Kind {
+	case "axis":
+		// an axis-parallel line: one coordinate shared exactly by all vertices (ordinary, huge or tiny), the other a small
+		// integer times a unit of quite another magnitude
+		c.AxisShared = vkit.F(rapid.SampledFrom([]float64{0, 1, -7.5, 1000000.1, 0x1p600, -0x1p900, 0x1p-600, 123456.789}).Draw(t, "axisshared"))
+		c.AxisUnitExp = rapid.SampledFrom([]int{0, 0, -520, -540, -1000, 500, 900, 3, -30}).Draw(t, "axisunit")
+		c.AxisVertical = rapid.Bool().Draw(t, "axisvertical")
+		nl := rapid.IntRange(1, 2).Draw(t, "axisnl")
+		for i := 0; i < nl; i++ {
+			n := rapid.IntRange(2, 6).Draw(t, "axisn")
+			l := make([]vkit.P2, n)
+			for j := range l {
+				l[j] = vkit.MkP(float64(rapid.IntRange(-20, 20).Draw(t, "axism")), 0)
+			}
+			c.Lines = append(c.Lines, l)
+		}
+		c.AsMulti = nl > 1 || rapid.Bool().Draw(t, "asmulti")
+		c.Pt = vkit.MkP(float64(rapid.IntRange(-25, 25).Draw(t, "axisp")), 0)
+		if rapid.IntRange(0, 3).Draw(t, "axisoffset") == 0 {
+			c.AxisOff = rapid.IntRange(-9, 9).Draw(t, "axisoff")
+		}
 	case "poly":
 		nm := rapid.SampledFrom([]int{1, 1, 2, 3}).Draw(t, "nm")
 		c.AsMulti = nm > 1 || rapid.Bool().Draw(t, "asmulti")
@@ -547,6 +576,81 @@ func runLine(c Case) (v vkit.Verdict) {
 	return v
 }
 
+// runAxis: the one-dimensional cases.
+func runAxis(c Case) (v vkit.Verdict) {
+	v.Class("axis")
+	u := math.Ldexp(1, c.AxisUnitExp)
+	shared := float64(c.AxisShared)
+	mk := func(m, off float64) geom.Point {
+		a, b := m*u, shared+off*u
+		if c.AxisVertical { // the line runs along y at x = shared
+			return geom.Point{X: b, Y: a}
+		}
+		return geom.Point{X: a, Y: b}
+	}
+	if c.AxisOff != 0 && shared+float64(c.AxisOff)*u == shared {
+		v.Class("axis_offset_lost_in_rounding_skipped")
+		return v
+	}
+	var ml geom.MultiLineString
+	wantLen, wantD, maxm := 0.0, math.Inf(1), 1.0
+	pm := float64(c.Pt[0])
+	for _, l := range c.Lines {
+		var ls geom.LineString
+		for i, q := range l {
+			ls = append(ls, mk(float64(q[0]), 0))
+			maxm = math.Max(maxm, math.Abs(float64(q[0])))
+			if i+1 < len(l) {
+				a, b := float64(q[0]), float64(l[i+1][0])
+				wantLen += math.Abs(b - a)
+				lo, hi := math.Min(a, b), math.Max(a, b)
+				d1 := math.Max(0, math.Max(lo-pm, pm-hi)) // along the line, in units
+				if d := math.Hypot(d1, float64(c.AxisOff)); d < wantD {
+					wantD = d
+				}
+			}
+		}
+		ml = append(ml, ls)
+	}
+	// the offset of the query point as the library sees it (shared+off*u may round)
+	var L geom.Linear = ml
+	if !c.AsMulti && len(ml) == 1 {
+		L = ml[0]
+	}
+	v.NonTrivial = true
+	v.Class(fmt.Sprintf("axis_shared_%g_unit_2^%d", shared, c.AxisUnitExp))
+	wantLen *= u
+	if got := L.Length(); vkit.Off(got-wantLen, 1e-12*wantLen) {
+		return v.Fail("%T.Length() = %.17g, want %.17g (all vertices share the coordinate %v, the other one is a small integer times 2^%d): %v", L, got, wantLen, shared, c.AxisUnitExp, ml)
+	}
+	if got := op.Length(L); vkit.Off(got-wantLen, 1e-12*wantLen) {
+		return v.Fail("op.Length(%T) = %.17g, want %.17g (all vertices share the coordinate %v, the other one is a small integer times 2^%d): %v", L, got, wantLen, shared, c.AxisUnitExp, ml)
+	}
+	if c.AxisOff != 0 {
+		// the true offset after rounding of shared+off*u
+		q := mk(pm, float64(c.AxisOff))
+		off := (q.Y - shared) / u
+		if c.AxisVertical {
+			off = (q.X - shared) / u
+		}
+		wantD = math.Inf(1)
+		for _, l := range c.Lines {
+			for i := 0; i+1 < len(l); i++ {
+				a, b := float64(l[i][0]), float64(l[i+1][0])
+				d1 := math.Max(0, math.Max(math.Min(a, b)-pm, pm-math.Max(a, b)))
+				wantD = math.Min(wantD, math.Hypot(d1, off))
+			}
+		}
+	}
+	got := L.Distance(mk(pm, float64(c.AxisOff)))
+	want := wantD * u
+	// allowance: the foot of the perpendicular is located to rounding of the coordinate that varies
+	if vkit.Off(got-want, 1e-12*(want+(maxm+math.Abs(pm))*u)) {
+		return v.Fail("%T.Distance(%v) = %.17g, want %.17g (all vertices share the coordinate %v, the other one is a small integer times 2^%d): %v", L, mk(pm, float64(c.AxisOff)), got, want, shared, c.AxisUnitExp, ml)
+	}
+	return v
+}
+
 func runBuffer(c Case) (v vkit.Verdict) {
 	v.Class("buffer")
 	v.NonTrivial = c.Radius > 0
@@ -601,6 +705,8 @@ func run(c Case) vkit.Verdict {
 		return runLine(c)
 	case "buffer":
 		return runBuffer(c)
+	case "axis":
+		return runAxis(c)
 	}
 	return runBox(c)
 }
